@@ -51,6 +51,12 @@ CHECKS = {
     "C12": dict(cat="exploration", tech="PBT over (state, additional on arithmetic boundaries, layout, allocator behaviour) with a result trichotomy and nothing-changed snapshot",
                 text="try_reserve from generated states with `additional` on every arithmetic boundary, for 19 layouts and 3 collection kinds, against an allocator that grants, refuses the j-th request or refuses above a limit; Ok / CapacityOverflow / AllocError(refused layout) trichotomy, never a panic, valid layouts only, and on Err nothing changed and nothing leaked.",
                 ref="9.12"),
+    "C16": dict(cat="exploration", tech="exhaustive generation of client programs (type x witness types x obligation; borrow misuse; covariant coercions), rustc as executor, each rejecting program paired with an accepting control twin",
+                text="About 7.4k generated single-obligation programs over every public type of hash_map, hash_set, hash_table and the rayon adaptors: auto-trait obligations under every assignment of {Send+Sync, Send-only, Sync-only, neither} witness types that violates a hand-written access-requirement table must be rejected (E0277) while the all-Send+Sync twin is accepted; covariant coercions through writing types must be rejected; results of every borrowing method used after mutate/drop/move of the collection must be rejected while the control twin compiles. The type checker is universal over the generic parameters for the witness lattice used; the inventory and the table are hand-written (new public types are reported).",
+                ref="9.16", note="Trusted base: rustc's type and borrow checker, the hand-written access-requirement table (DESIGN Appendix A) and inventory of public types."),
+    "C19": dict(cat="exploration", tech="PBT over (occupancy pattern, parallel operation, pool size, early-stop point) on real rayon pools + hook-driven explicit split trees, with an atomic per-element drop/delivery ledger",
+                text="Generated occupancy patterns on map/sets/table of atomically tracked elements; every par_* adaptor on pools of 1..64 threads, fully consumed or stopped early; explicit split trees through hooks for RawIterRange::split (leaves must partition the FULL buckets) and ParDrainProducer (split / fold with a folder that fills up / drop). Delivered multiset == contents; every element dropped exactly once; collection empty, valid and usable after par_drain.",
+                ref="9.19"),
     "C17": dict(cat="exploration", tech="exhaustive + boundary + seeded-random enumeration of the arithmetic functions through hooks vs independent u128 arithmetic",
                 text="capacity_to_buckets, bucket_mask_to_capacity, calculate_layout_for, TableLayout::new and the probe sequence are evaluated through read-only hooks on both group widths over exhaustive low ranges, +-4096 (quick) / +-65536 (thorough) neighbourhoods of every 2^k and 7/8*2^k up to usize::MAX, extreme (size, align) pairs and seeded random 64-bit inputs; exhaustive only in the stated ranges.",
                 ref="9.17"),
